@@ -3,6 +3,7 @@ import Mc.Spec.SyncOracles
 import Mc.Spec.RollingOracle
 import Mc.Spec.RelatedOracle
 import Mc.Drv.ApiCheck
+import Mc.Drv.ClosedLoop
 namespace Mc.Drv
 
 def caseOfJ (c : J) : SyncCase :=
@@ -70,6 +71,11 @@ def handleSync (c : J) : Res := Id.run do
   match apiCheck (defsOfJ (c.getD "defs")) s.calls with
   | some m => r := tag (disagree r ("[apimodel] " ++ m)) "diff-apimodel"
   | none => r := tag r "apimodel-agrees"
+  -- sync model ∘ API model from the recorded start store vs what metacontroller ∘ simulator left behind
+  match closedLoopCheck c s.calls prog with
+  | (some m, _) => r := tag (disagree r ("[closedloop] " ++ m)) "diff-closedloop"
+  | (none, true) => r := tag r "closedloop-agrees"
+  | (none, false) => pure ()
   -- oracles on the implementation's own trace
   r := judge r "C02" (oracleC02 s)
   r := judge r "C03" (oracleC03 s)
